@@ -176,3 +176,46 @@ pub fn bigram_weight_table(model: &super::Model) -> Vec<(String, String, usize)>
 pub fn model_feature_maps(model: &super::Model) -> IdMaps {
     dump_maps(&model.data.config.feature_extractor)
 }
+
+/// The expansion strings of the LEFT templates (over the left-rewritten features) and of the RIGHT
+/// templates (over the right-rewritten features) for every `(feature string, category id)` row,
+/// `None` = the template yields no feature.  Computed with a fresh configuration read from the
+/// given definition files, i.e. what `Trainer::new` / `Model::read_user_lexicon` hand to the model
+/// for an entry with that feature string.
+#[allow(clippy::type_complexity)]
+pub fn expected_bigram_tuples(
+    lex: &[u8],
+    chardef: &[u8],
+    unk: &[u8],
+    feature_def: &[u8],
+    rewrite_def: &[u8],
+    rows: &[(String, u32)],
+) -> Option<Vec<(Vec<Option<String>>, Vec<Option<String>>)>> {
+    let mut config = TrainerConfig::from_readers(lex, chardef, unk, feature_def, rewrite_def).ok()?;
+    let mut ids = vec![];
+    for (f, cate) in rows {
+        let fs = Trainer::extract_feature_set(
+            &mut config.feature_extractor,
+            &config.unigram_rewriter,
+            &config.left_rewriter,
+            &config.right_rewriter,
+            f,
+            *cate,
+        );
+        ids.push((fs.bigram_left().to_vec(), fs.bigram_right().to_vec()));
+    }
+    let maps = dump_maps(&config.feature_extractor);
+    let name = |m: &Vec<(String, u32)>, id: Option<std::num::NonZeroU32>| {
+        id.map(|i| m.iter().find(|x| x.1 == i.get()).map(|x| x.0.clone()).unwrap_or_default())
+    };
+    Some(
+        ids.into_iter()
+            .map(|(l, r)| {
+                (
+                    l.into_iter().map(|i| name(&maps[1], i)).collect(),
+                    r.into_iter().map(|i| name(&maps[2], i)).collect(),
+                )
+            })
+            .collect(),
+    )
+}
